@@ -1,23 +1,38 @@
 /-
 C20 - curvature information matches the cost it is meant to describe.
 
-About `Pygom/Sens.lean` (`sens_to_jtj`, `eval_forwardforward`, the assembly at the end of `hessian`):
+About `Pygom/Sens.lean` (`sens_to_jtj`, `eval_forwardforward`, the assembly at the end of `hessian`), which mirror the
+code WITH the repair of finding C20-hessian-mixed-terms (new evaluator `grad_grad`, three more terms in
+`eval_forwardforward`) and the earlier sign / weight repair of the second-order term (fix 0f0d14a):
 
 * `jtj_entry`, `jtj_symm`, `jtj_posSemidef` : `jtj[a][b] = Σ_i Σ_j w_ij²·S_ija·S_ijb`, symmetric, positive
   semi-definite - for every number of observations, observed states and free parameters;
-* `ff_rhs_entry` : what the coded forward-forward right-hand side computes;
+* `ff_rhs_entry` : what the coded forward-forward right-hand side computes, entry by entry, for every `nS`, `nP`
+  (the `reshape(nP,nS,nP).transpose(1,0,2)`, `+ transpose(0,2,1)`, `reshape(nS*nP,nP)` index arithmetic included);
   `ffTrue_is_total_derivative_of_sens_rhs` : the true second-order sensitivity equation (the total derivative of the
   first-order right-hand side `J·S_a + G_a` in `θ_b`);
-  `ff_rhs_partial` : the two agree WHEN the three groups of terms with a parameter derivative vanish;
-  `ff_rhs_counterexample` : they do not in general (`f = θ·x`): the code omits those groups;
-* `hessianH_entry`; `hessian_repaired_is_derivative_of_gradient` : with the sign/weight repair of the second-order
-  term the assembly is the derivative of `gradient` (given second-order sensitivities);
-  `hessian_is_second_derivative_partial` : AS CODED it is so only when the second-order sensitivities of the observed
-  states vanish; `hessian_sign_counterexample`.
+  `ff_rhs_is_true` : FULL - the coded right-hand side IS the true one, every state `i`, parameters `a`, `b`;
+  `ff_asFound_entry`, `ff_rhs_asFound_partial`, `ff_rhs_asFound_counterexample` : history - the right-hand side as found
+  lacked the three groups of terms with a parameter derivative (`f = θ·x`); a regression to it is what the harness
+  signature `hessian:missing-mixed-terms` names;
+* `hessianH_entry`; `hessian_is_second_derivative_partial` : entry `(a,b)` of `hessian` is the derivative in the `b`-th
+  target parameter of component `a` of `gradient` for the weighted square loss, GIVEN the two facts that are not
+  provable with Mathlib today (see ASSUMED below); `hessian_asFound_sign_counterexample` : history (before fix 0f0d14a).
 
-FULL STATEMENT (false of the code today, for two independent reasons - see the counterexamples):
-  `hessian(θ)[a][b]` is the derivative of `gradient(θ)[a]` in `θ_b` for every model.
-Assumed throughout (as in C13): integrating a sensitivity system yields the derivative of the solution.
+FULL STATEMENT:  `hessian(θ)[a][b]` is the derivative of `gradient(θ)[a]` in `θ_b` for every model.
+PROVED of the model of the code: every algebraic step - the second-order system that is integrated is the second-order
+variational equation (`ff_rhs_is_true` + `ffTrue_is_total_derivative_of_sens_rhs`, given C03's derivative objects), and
+the assembly turns second-order sensitivities into the derivative of the gradient (`hessian_is_second_derivative_partial`).
+ASSUMED (hypotheses `hy`, `hs` of `hessian_is_second_derivative_partial`; as in C13 / C07):
+  (A1) the integrated first-order block is the first-order sensitivity `∂x(t_i)/∂θ` (hypothesis `hy`),
+  (A2) the integrated forward-forward block is its derivative: for every observation time `t_i`, observed state `q`
+       and target parameters `a`, `b`, the map `θ_b ↦ S_{q,a}(t_i; θ)` has derivative `FF_i[stateIdx[q]*nP + a][b]`
+       (hypothesis `hs`).
+  Both are instances of the theorem "the solution of the variational initial value problem `X' = (total derivative of the
+  right-hand side), X(t0) = 0` is the derivative of the flow in the parameter" (differentiable dependence on parameters,
+  e.g. Hartman, ODE, Thm V.3.1/V.4.1, applied to `x' = f` and then to the first-order augmented system), which is not in
+  Mathlib, together with the accuracy of scipy's integrator.  Checked on every run against finite differences of 1e-12
+  reference solutions.
 -/
 import Pygom.Lemmas.SensDeriv
 import Mathlib.LinearAlgebra.Matrix.PosDef
@@ -81,14 +96,14 @@ end jtj
 /-! ## second-order (forward-forward) sensitivities -/
 section ff
 
-/-- what `eval_forwardforward` computes: row `i*nP + a`, column `b` (state `i`, parameters `a`, `b`) is
-`Σ_l J_il·FF[l*nP+a][b] + Σ_j (Σ_k S_ka·∂²f_i/∂x_k∂x_j)·S_jb` -/
-theorem ff_rhs_entry {R : Type} [CommSemiring R] (nS nP : ℕ) (J DJ FF S : Mat R) (i a b : ℕ)
+/-- what `eval_forwardforward` computed AS FOUND: row `i*nP + a`, column `b` (state `i`, parameters `a`, `b`) is
+`Σ_l J_il·FF[l*nP+a][b] + Σ_j (Σ_k S_ka·∂²f_i/∂x_k∂x_j)·S_jb`; these are the first two lines of the code today -/
+theorem ff_asFound_entry {R : Type} [CommSemiring R] (nS nP : ℕ) (J DJ FF S : Mat R) (i a b : ℕ)
     (hi : i < nS) (ha : a < nP) :
-    evalForwardForward nS nP J DJ FF S (i*nP + a) b
+    evalForwardForwardAsFound nS nP J DJ FF S (i*nP + a) b
       = sumTo nS (fun l => J i l * FF (l*nP + a) b)
         + sumTo nS (fun j => sumTo nS (fun k => S k a * DJ (i*nS + k) j) * S j b) := by
-  unfold evalForwardForward matAdd
+  unfold evalForwardForwardAsFound matAdd
   congr 1
   · -- kronParam(J).dot(FF)
     simp only [matMul, kronParam, Bool.false_eq_true, if_false, kron]
@@ -124,26 +139,59 @@ theorem ff_rhs_entry {R : Type} [CommSemiring R] (nS nP : ℕ) (J DJ FF S : Mat 
         rw [idx_div i ha, idx_div e' hk]; simp [eye, this]
     rw [e, sumTo_indicator]; simp [hi]
 
+/-- the index arithmetic of
+`GJS = M.reshape(nP, nS, nP).transpose(1, 0, 2); (GJS + GJS.transpose(0, 2, 1)).reshape(nS*nP, nP)`
+for any matrix `M` with `nP` columns (in the code `M = grad_jacobian.dot(S)`, shape `nP*nS × nP`):
+row `i*nP + a`, column `b` is `M[a*nS+i][b] + M[b*nS+i][a]` -/
+theorem gjs_entry {R : Type} [Add R] (nS nP : ℕ) (M : Mat R) (i a b : ℕ) (ha : a < nP) (hb : b < nP) :
+    reshapeC nP (flatten3C nP nP (tenAdd (transpose102 (reshape3C nS nP (flattenC nP M)))
+        (transpose021 (transpose102 (reshape3C nS nP (flattenC nP M)))))) (i*nP + a) b
+      = M (a*nS + i) b + M (b*nS + i) a := by
+  have h1 : ((i*nP + a)*nP + b) / nP = i*nP + a := idx_div (i*nP + a) hb
+  have h2 : ((i*nP + a)*nP + b) % nP = b := idx_mod (i*nP + a) hb
+  have h3 : ((i*nP + a)*nP + b) / (nP*nP) = i := by
+    rw [← Nat.div_div_eq_div_mul, h1, idx_div i ha]
+  simp only [reshapeC, flatten3C, tenAdd, transpose102, transpose021, reshape3C, flattenC]
+  rw [h3, h1, h2, idx_mod i ha, idx_div (a*nS + i) hb, idx_mod (a*nS + i) hb, idx_div (b*nS + i) ha, idx_mod (b*nS + i) ha]
+
+/-- **what `eval_forwardforward` computes**, every `nS`, `nP`: row `i*nP + a`, column `b` (state `i`, parameters `a`, `b`) is
+`Σ_l J_il·FF[l*nP+a][b] + Σ_j (Σ_k S_ka·∂²f_i/∂x_k∂x_j)·S_jb + (Σ_l GJ[a*nS+i][l]·S_lb + Σ_l GJ[b*nS+i][l]·S_la) + GG[i*nP+a][b]` -/
+theorem ff_rhs_entry {R : Type} [CommSemiring R] (nS nP : ℕ) (J DJ GJ GG FF S : Mat R) (i a b : ℕ)
+    (hi : i < nS) (ha : a < nP) (hb : b < nP) :
+    evalForwardForward nS nP J DJ GJ GG FF S (i*nP + a) b
+      = sumTo nS (fun l => J i l * FF (l*nP + a) b)
+        + sumTo nS (fun j => sumTo nS (fun k => S k a * DJ (i*nS + k) j) * S j b)
+        + (sumTo nS (fun l => GJ (a*nS + i) l * S l b) + sumTo nS (fun l => GJ (b*nS + i) l * S l a))
+        + GG (i*nP + a) b := by
+  have h0 := ff_asFound_entry nS nP J DJ FF S i a b hi ha
+  have h1 := gjs_entry nS nP (matMul nS GJ S) i a b ha hb
+  unfold evalForwardForwardAsFound matAdd at h0
+  unfold evalForwardForward
+  simp only [matAdd]
+  rw [h0, h1]
+  rfl
+
 /-- the TRUE right-hand side of the second-order sensitivity equation for `X_iab = ∂²x_i/∂θ_a∂θ_b`:
 `J·X_ab + Σ_kl ∂²f_i/∂x_k∂x_l·S_ka·S_lb + Σ_k ∂²f_i/∂x_k∂θ_b·S_ka + Σ_k ∂²f_i/∂x_k∂θ_a·S_kb + ∂²f_i/∂θ_a∂θ_b`.
-`GJ` is `grad_jacobian` (row `b*nS+i`, column `k` ↦ `∂/∂x_k ∂f_i/∂θ_b`), `GG i a b = ∂²f_i/∂θ_a∂θ_b`. -/
-def ffTrue {R : Type} [Zero R] [Add R] [Mul R] (nS nP : ℕ) (J DJ GJ FF S : Mat R) (GG : ℕ → ℕ → ℕ → R) (i a b : ℕ) : R :=
+`GJ` is `grad_jacobian` (row `b*nS+i`, column `k` ↦ `∂/∂x_k ∂f_i/∂θ_b`), `GG` is `grad_grad` (row `i*nP+a`, column `b` ↦
+`∂²f_i/∂θ_a∂θ_b`) - C03 proves that these objects hold these derivatives. -/
+def ffTrue {R : Type} [Zero R] [Add R] [Mul R] (nS nP : ℕ) (J DJ GJ GG FF S : Mat R) (i a b : ℕ) : R :=
   sumTo nS (fun l => J i l * FF (l*nP + a) b)
   + sumTo nS (fun j => sumTo nS (fun k => S k a * DJ (i*nS + k) j) * S j b)
-  + (sumTo nS (fun k => GJ (b*nS + i) k * S k a) + sumTo nS (fun k => GJ (a*nS + i) k * S k b) + GG i a b)
+  + (sumTo nS (fun k => GJ (b*nS + i) k * S k a) + sumTo nS (fun k => GJ (a*nS + i) k * S k b) + GG (i*nP + a) b)
 
 /-- `ffTrue` is the derivative in `θ_b` (variable `v`) of the first-order right-hand side `Σ_l J_il·S_la + G_ia`
 evaluated along the solution: `St v l a` has derivative `X_lab = FF[l*nP+a][b]`; the Jacobian and gradient entries
 along the solution have the total derivatives the chain rule gives them. -/
-theorem ffTrue_is_total_derivative_of_sens_rhs (nS nP : ℕ) (J DJ GJ FF S : Mat ℝ) (GG : ℕ → ℕ → ℕ → ℝ)
+theorem ffTrue_is_total_derivative_of_sens_rhs (nS nP : ℕ) (J DJ GJ GG FF S : Mat ℝ)
     (Jt Gt St : ℝ → ℕ → ℕ → ℝ) (v0 : ℝ) (i a b : ℕ)
     (hJ0 : ∀ l, Jt v0 i l = J i l) (hS0 : ∀ l, St v0 l a = S l a)
     (hS : ∀ l, l < nS → HasDerivAt (fun v => St v l a) (FF (l*nP + a) b) v0)
     (hJt : ∀ l, l < nS → HasDerivAt (fun v => Jt v i l) (sumTo nS (fun k => DJ (i*nS + l) k * S k b) + GJ (b*nS + i) l) v0)
-    (hGt : HasDerivAt (fun v => Gt v i a) (sumTo nS (fun k => GJ (a*nS + i) k * S k b) + GG i a b) v0)
+    (hGt : HasDerivAt (fun v => Gt v i a) (sumTo nS (fun k => GJ (a*nS + i) k * S k b) + GG (i*nP + a) b) v0)
     (hsym : ∀ k l, DJ (i*nS + l) k = DJ (i*nS + k) l) :
     HasDerivAt (fun v => sumTo nS (fun l => Jt v i l * St v l a) + Gt v i a)
-      (ffTrue nS nP J DJ GJ FF S GG i a b) v0 := by
+      (ffTrue nS nP J DJ GJ GG FF S i a b) v0 := by
   have h1 := hasDerivAt_sumTo nS (fun l v => Jt v i l * St v l a) _ v0 (fun l hl => (hJt l hl).mul (hS l hl))
   refine (h1.add hGt).congr_deriv ?_
   unfold ffTrue
@@ -162,23 +210,60 @@ theorem ffTrue_is_total_derivative_of_sens_rhs (nS nP : ℕ) (J DJ GJ FF S : Mat
     rw [hsym j k]; ring
   rw [e1, e2]; ring
 
-/-- the coded right-hand side is the true one WHEN the three groups carrying a parameter derivative vanish -/
-theorem ff_rhs_partial {R : Type} [CommSemiring R] (nS nP : ℕ) (J DJ GJ FF S : Mat R) (GG : ℕ → ℕ → ℕ → R)
+/-- **FULL: the coded right-hand side is the second-order sensitivity equation**, for every number of states and
+parameters, every state `i` and every pair of parameters `a`, `b` -/
+theorem ff_rhs_is_true {R : Type} [CommSemiring R] (nS nP : ℕ) (J DJ GJ GG FF S : Mat R)
+    (i a b : ℕ) (hi : i < nS) (ha : a < nP) (hb : b < nP) :
+    evalForwardForward nS nP J DJ GJ GG FF S (i*nP + a) b = ffTrue nS nP J DJ GJ GG FF S i a b := by
+  rw [ff_rhs_entry nS nP J DJ GJ GG FF S i a b hi ha hb]
+  unfold ffTrue
+  ring
+
+/-- what is integrated: position `nS + nS*nP + (i*nP + a)*nP + b` of `ode_and_forwardforward(z, t)` is the true
+second-order right-hand side for (state `i`, parameters `a`, `b`) at `S = vecToMatSens(z[nS:nS*(nP+1)])`,
+`FF = vecToMatFF(z[nS*(nP+1):])` -/
+theorem odeAndForwardForward_ff_block {R : Type} [CommRing R] (nS nP : ℕ) (f : Vec R) (J G DJ GJ GG : Mat R) (z : Vec R)
+    (i a b : ℕ) (hi : i < nS) (ha : a < nP) (hb : b < nP) :
+    odeAndForwardForward nS nP f J G DJ GJ GG z (nS + nS*nP + ((i*nP + a)*nP + b))
+      = ffTrue nS nP J DJ GJ GG (vecToMatFF nP (dropV (nS*(nP+1)) z)) (vecToMatSens nS (dropV nS z)) i a b := by
+  have h1 : ¬ (nS + nS*nP + ((i*nP + a)*nP + b) < nS) := by omega
+  have h2 : ¬ (nS + nS*nP + ((i*nP + a)*nP + b) < nS + nS*nP) := by omega
+  have h3 : nS + nS*nP + ((i*nP + a)*nP + b) - nS - nS*nP = (i*nP + a)*nP + b := by omega
+  simp only [odeAndForwardForward, h1, h2, if_false, h3, forwardForward, matToVecFF, flattenC]
+  rw [idx_div (i*nP + a) hb, idx_mod (i*nP + a) hb]
+  exact ff_rhs_is_true nS nP J DJ GJ GG _ _ i a b hi ha hb
+
+/-- history: the right-hand side AS FOUND was the true one only WHEN the three groups carrying a parameter derivative vanish -/
+theorem ff_rhs_asFound_partial {R : Type} [CommSemiring R] (nS nP : ℕ) (J DJ GJ GG FF S : Mat R)
     (i a b : ℕ) (hi : i < nS) (ha : a < nP)
-    (hvanish : sumTo nS (fun k => GJ (b*nS + i) k * S k a) + sumTo nS (fun k => GJ (a*nS + i) k * S k b) + GG i a b = 0) :
-    evalForwardForward nS nP J DJ FF S (i*nP + a) b = ffTrue nS nP J DJ GJ FF S GG i a b := by
-  rw [ff_rhs_entry nS nP J DJ FF S i a b hi ha]
+    (hvanish : sumTo nS (fun k => GJ (b*nS + i) k * S k a) + sumTo nS (fun k => GJ (a*nS + i) k * S k b) + GG (i*nP + a) b = 0) :
+    evalForwardForwardAsFound nS nP J DJ FF S (i*nP + a) b = ffTrue nS nP J DJ GJ GG FF S i a b := by
+  rw [ff_asFound_entry nS nP J DJ FF S i a b hi ha]
   unfold ffTrue
   rw [hvanish, add_zero]
 
 end ff
 
-/-- FULL STATEMENT (false of the code): `eval_forwardforward` is the true second-order right-hand side for every model.
+/-- history, and what a regression looks like: `eval_forwardforward` AS FOUND was not the second-order right-hand side.
 `f = θ·x` (one state, one parameter; `θ = 2`, `S = 1`, `X = 0`): `J = 2`, `∂²f/∂x² = 0`, `∂²f/∂x∂θ = 1`,
-`∂²f/∂θ² = 0`.  The code returns `2·0 + 0 = 0`, the true right-hand side is `0 + 0 + 1 + 1 + 0 = 2`. -/
-theorem ff_rhs_counterexample :
-    evalForwardForward 1 1 (fun _ _ => (2:Int)) (fun _ _ => 0) (fun _ _ => 0) (fun _ _ => 1) 0 0 = 0 ∧
-    ffTrue 1 1 (fun _ _ => (2:Int)) (fun _ _ => 0) (fun _ _ => 1) (fun _ _ => 0) (fun _ _ => 1) (fun _ _ _ => 0) 0 0 0 = 2 := by
+`∂²f/∂θ² = 0`.  As found the code returned `2·0 + 0 = 0`; the true right-hand side is `0 + 0 + 1 + 1 + 0 = 2`,
+which is what the code returns now. -/
+theorem ff_rhs_asFound_counterexample :
+    evalForwardForwardAsFound 1 1 (fun _ _ => (2:Int)) (fun _ _ => 0) (fun _ _ => 0) (fun _ _ => 1) 0 0 = 0 ∧
+    ffTrue 1 1 (fun _ _ => (2:Int)) (fun _ _ => 0) (fun _ _ => 1) (fun _ _ => 0) (fun _ _ => 0) (fun _ _ => 1) 0 0 0 = 2 ∧
+    evalForwardForward 1 1 (fun _ _ => (2:Int)) (fun _ _ => 0) (fun _ _ => 1) (fun _ _ => 0) (fun _ _ => 0) (fun _ _ => 1) 0 0 = 2 := by
+  decide
+
+/-- each of the three new lines matters (two states, two parameters, entry `(i,a,b) = (0,0,1)`, all other inputs zero):
+dropping `GJS` loses `GJ[a*nS+i]·S_b`, dropping `GJS.transpose(0,2,1)` loses `GJ[b*nS+i]·S_a`, dropping `grad_grad`
+loses `∂²f_i/∂θ_a∂θ_b` -/
+theorem ff_rhs_terms_independent :
+    evalForwardForward 2 2 (fun _ _ => (0:Int)) (fun _ _ => 0) (fun r c => if r = 0 ∧ c = 0 then 1 else 0) (fun _ _ => 0)
+      (fun _ _ => 0) (fun r c => if r = 0 ∧ c = 1 then 1 else 0) 0 1 = 1 ∧
+    evalForwardForward 2 2 (fun _ _ => (0:Int)) (fun _ _ => 0) (fun r c => if r = 2 ∧ c = 0 then 1 else 0) (fun _ _ => 0)
+      (fun _ _ => 0) (fun r c => if r = 0 ∧ c = 0 then 1 else 0) 0 1 = 1 ∧
+    evalForwardForward 2 2 (fun _ _ => (0:Int)) (fun _ _ => 0) (fun _ _ => 0) (fun r c => if r = 0 ∧ c = 1 then 1 else 0)
+      (fun _ _ => 0) (fun _ _ => 0) 0 1 = 1 := by
   decide
 
 /-! ## the Hessian assembly -/
@@ -232,11 +317,12 @@ theorem kronE_entry {R : Type} [CommSemiring R] (nS nP : ℕ) (e : Vec R) (F : M
       simp [eye, h, this]
   rw [e1, sumTo_indicator]; simp [ha]
 
-/-- what the accumulation loop of `hessian` computes: `H[a][b] = Σ_i Σ_q (-diff_loss[i][q])·FF_i[stateIndex[q]*nP + a][b]` -/
+/-- what the accumulation loop of `hessian` computes:
+`H[a][b] = Σ_i Σ_q diff_loss[i][q]·weight[i][q]·FF_i[stateIndex[q]*nP + a][b]` -/
 theorem hessianH_entry {R : Type} [CommRing R] (nS nP n : ℕ) (stateIdx : List ℕ) (hn : stateIdx.Nodup)
-    (hlt : ∀ x ∈ stateIdx, x < nS) (dl : Mat R) (FF : ℕ → Mat R) (a b : ℕ) (ha : a < nP) :
-    hessianH nS nP n stateIdx dl FF a b
-      = sumTo n (fun i => sumTo stateIdx.length (fun q => -(dl i q) * FF i (stateIdx.getD q 0 * nP + a) b)) := by
+    (hlt : ∀ x ∈ stateIdx, x < nS) (dl w : Mat R) (FF : ℕ → Mat R) (a b : ℕ) (ha : a < nP) :
+    hessianH nS nP n stateIdx dl w FF a b
+      = sumTo n (fun i => sumTo stateIdx.length (fun q => dl i q * w i q * FF i (stateIdx.getD q 0 * nP + a) b)) := by
   unfold hessianH
   apply sumTo_congr; intro i _
   rw [kronE_entry nS nP _ _ a b ha, hessE, scatter_sum nS stateIdx hn hlt]
@@ -263,64 +349,48 @@ theorem gradient_hasDerivAt (n numS : ℕ) (Y w sb X : Mat ℝ) (yh sa : ℕ →
   apply sumTo_congr; intro i _
   rw [← sumTo_mul_left, ← sumTo_add_fun]
 
-/-- **repaired assembly.**  With `E[stateIndex] += diff_loss[i]*weight[i]`, entry `(a,b)` of `hessian` is the
-derivative in the `b`-th target parameter of component `a` of `gradient`, GIVEN that the integrated forward-forward
-block holds the second-order sensitivities of the observed states (`hs`) and the integrated sensitivities are the
-first-order ones (`hy`), and `JTJ` is the `sens_to_jtj` value (`hJTJ`, see `jtj_entry`). -/
-theorem hessian_repaired_is_derivative_of_gradient (nS nP n : ℕ) (stateIdx paramIdx : List ℕ)
+/-- **the Hessian assembly.**  Entry `(a,b)` of `hessian(θ)` is the derivative in the `b`-th target parameter (variable
+`v`, at `v0`) of component `a` of `gradient(θ)` of the weighted square loss
+`gradient_a(v) = Σ_i Σ_q -2·(y_iq - ŷ_iq(v))·w_iq · (s_iqa(v)·w_iq)`,
+for every number of states, parameters, observations, every selection and order of observed states (`stateIdx`,
+distinct) and of target parameters (`paramIdx`), every weight array.
+
+PARTIAL because of the two hypotheses that are the variational-equation theorem (see the header, (A1), (A2)):
+* `hy` : `ŷ_iq` (the integrated state) has derivative `sb i q` (the integrated first-order sensitivity in `θ_b`);
+* `hs` : `s_iqa` (the integrated first-order sensitivity in `θ_a`) has derivative
+  `FF_i[stateIdx[q]*nP + paramIdx[a]][paramIdx[b]]`, the entry of the integrated forward-forward block
+  (`ff_rhs_is_true`: the system integrated for it IS the second-order variational equation);
+`hJTJ` says `JTJ` is the `sens_to_jtj` value at these sensitivities (`jtj_entry`), `dl = -2·(y - ŷ)·w` is `diff_loss`. -/
+theorem hessian_is_second_derivative_partial (nS nP n : ℕ) (stateIdx paramIdx : List ℕ)
     (hn : stateIdx.Nodup) (hlt : ∀ x ∈ stateIdx, x < nS) (a b : ℕ) (ha : paramIdx.getD a 0 < nP)
     (Y w sb JTJ : Mat ℝ) (FF : ℕ → Mat ℝ) (yh sa : ℕ → ℕ → ℝ → ℝ) (v0 : ℝ)
     (hy : ∀ i q, HasDerivAt (yh i q) (sb i q) v0)
     (hs : ∀ i q, HasDerivAt (sa i q) (FF i (stateIdx.getD q 0 * nP + paramIdx.getD a 0) (paramIdx.getD b 0)) v0)
     (hJTJ : JTJ a b = sumTo n (fun i => sumTo stateIdx.length (fun q => (sa i q v0 * w i q) * (sb i q * w i q)))) :
     HasDerivAt (fun v => sumTo n (fun i => sumTo stateIdx.length (fun q => (-2 * ((Y i q - yh i q v) * w i q)) * (sa i q v * w i q))))
-      (hessianRepaired nS nP n stateIdx paramIdx (fun i q => -2 * ((Y i q - yh i q v0) * w i q)) w FF JTJ a b) v0 := by
+      (hessian nS nP n stateIdx paramIdx (fun i q => -2 * ((Y i q - yh i q v0) * w i q)) w FF JTJ a b) v0 := by
   refine (gradient_hasDerivAt n stateIdx.length Y w sb _ yh sa v0 hy hs).congr_deriv ?_
-  unfold hessianRepaired
-  rw [hJTJ]
+  unfold hessian
+  rw [hJTJ, hessianH_entry nS nP n stateIdx hn hlt _ w FF _ _ ha]
   congr 1
-  · apply sumTo_congr; intro i _
-    rw [kronE_entry nS nP _ _ _ _ ha, hessERepaired, scatter_sum nS stateIdx hn hlt]
-    apply sumTo_congr; intro q _; ring
-  · ring
-
-/-- **as coded** (`E[stateIndex] += -diff_loss[i]`): the same conclusion needs the second-order sensitivities of the
-observed states to vanish (then `hessian = 2·JTJ`, the Gauss-Newton matrix). -/
-theorem hessian_is_second_derivative_partial (nS nP n : ℕ) (stateIdx paramIdx : List ℕ)
-    (hn : stateIdx.Nodup) (hlt : ∀ x ∈ stateIdx, x < nS) (a b : ℕ) (ha : paramIdx.getD a 0 < nP)
-    (Y w sb JTJ : Mat ℝ) (FF : ℕ → Mat ℝ) (yh sa : ℕ → ℕ → ℝ → ℝ) (v0 : ℝ)
-    (hy : ∀ i q, HasDerivAt (yh i q) (sb i q) v0)
-    (hs : ∀ i q, HasDerivAt (sa i q) (FF i (stateIdx.getD q 0 * nP + paramIdx.getD a 0) (paramIdx.getD b 0)) v0)
-    (hJTJ : JTJ a b = sumTo n (fun i => sumTo stateIdx.length (fun q => (sa i q v0 * w i q) * (sb i q * w i q))))
-    (hX : ∀ i q, FF i (stateIdx.getD q 0 * nP + paramIdx.getD a 0) (paramIdx.getD b 0) = 0) :
-    HasDerivAt (fun v => sumTo n (fun i => sumTo stateIdx.length (fun q => (-2 * ((Y i q - yh i q v) * w i q)) * (sa i q v * w i q))))
-      (hessianCoded nS nP n stateIdx paramIdx (fun i q => -2 * ((Y i q - yh i q v0) * w i q)) FF JTJ a b) v0 := by
-  have h := hessian_repaired_is_derivative_of_gradient nS nP n stateIdx paramIdx hn hlt a b ha Y w sb JTJ FF yh sa v0 hy hs hJTJ
-  refine h.congr_deriv ?_
-  unfold hessianRepaired hessianCoded
-  congr 1
-  rw [hessianH_entry nS nP n stateIdx hn hlt _ FF _ _ ha]
-  apply sumTo_congr; intro i _
-  rw [kronE_entry nS nP _ _ _ _ ha, hessERepaired, scatter_sum nS stateIdx hn hlt]
-  apply sumTo_congr; intro q _
-  rw [hX i q]; ring
+  ring
 
 end hessian
 
-/-- FULL STATEMENT (false of the code): `hessian` is the derivative of `gradient`.  One observation, one state, one
-parameter, `diff_loss = 1`, weight 1, second-order sensitivity 1, `JTJ = 0`: the derivative of the gradient is
-`diff_loss·w·X + 2·JTJ = 1`; the code returns `-1` (sign of the second-order term). -/
-theorem hessian_sign_counterexample :
-    hessianCoded 1 1 1 [0] [0] (fun _ _ => (1:Int)) (fun _ _ _ => 1) (fun _ _ => 0) 0 0 = -1 ∧
-    hessianRepaired 1 1 1 [0] [0] (fun _ _ => (1:Int)) (fun _ _ => 1) (fun _ _ _ => 1) (fun _ _ => 0) 0 0 = 1 := by
+/-- history (before fix 0f0d14a): the assembly AS FOUND had the wrong sign (and no weight) on its second-order term.
+One observation, one state, one parameter, `diff_loss = 1`, weight 1, second-order sensitivity 1, `JTJ = 0`: the
+derivative of the gradient is `diff_loss·w·X + 2·JTJ = 1`, which is what the code returns now; as found it returned `-1`. -/
+theorem hessian_asFound_sign_counterexample :
+    hessianAsFound 1 1 1 [0] [0] (fun _ _ => (1:Int)) (fun _ _ _ => 1) (fun _ _ => 0) 0 0 = -1 ∧
+    hessian 1 1 1 [0] [0] (fun _ _ => (1:Int)) (fun _ _ => 1) (fun _ _ _ => 1) (fun _ _ => 0) 0 0 = 1 := by
   decide
 
 /-! ## non-vacuity -/
 
-/-- the hypotheses of `hessian_repaired_is_derivative_of_gradient` are satisfiable with non-zero data:
+/-- the hypotheses of `hessian_is_second_derivative_partial` are satisfiable with non-zero data:
 one observation of a one-state model with `ŷ(θ) = θ²`, so `s = 2θ`, `X = 2`, at `θ = 1`, `y = 3`, weight `2` -/
 example : HasDerivAt (fun v : ℝ => sumTo 1 (fun i => sumTo 1 (fun q => (-2 * (((3:ℝ) - v*v) * 2)) * ((2*v) * 2))))
-    (hessianRepaired 1 1 1 [0] [0] (fun _ _ => -2 * (((3:ℝ) - 1*1) * 2)) (fun _ _ => 2) (fun _ _ _ => 2)
+    (hessian 1 1 1 [0] [0] (fun _ _ => -2 * (((3:ℝ) - 1*1) * 2)) (fun _ _ => 2) (fun _ _ _ => 2)
       (fun _ _ => (2*1*2) * (2*2)) 0 0) 1 := by
   have hy : ∀ i q : ℕ, HasDerivAt (fun v : ℝ => v*v) ((fun _ _ => (2:ℝ)) i q) 1 := by
     intro i q
@@ -329,10 +399,28 @@ example : HasDerivAt (fun v : ℝ => sumTo 1 (fun i => sumTo 1 (fun q => (-2 * (
   have hs : ∀ i q : ℕ, HasDerivAt (fun v : ℝ => 2*v) ((fun (_ : ℕ) (_ _ : ℕ) => (2:ℝ)) i (([0] : List ℕ).getD q 0 * 1 + ([0] : List ℕ).getD 0 0) (([0] : List ℕ).getD 0 0)) 1 := by
     intro i q
     simpa using (hasDerivAt_id (1:ℝ)).const_mul (2:ℝ)
-  have h := hessian_repaired_is_derivative_of_gradient 1 1 1 [0] [0] (by simp) (by simp) 0 0 (by simp)
+  have h := hessian_is_second_derivative_partial 1 1 1 [0] [0] (by simp) (by simp) 0 0 (by simp)
     (fun _ _ => (3:ℝ)) (fun _ _ => 2) (fun _ _ => 2) (fun _ _ => (2*1*2) * (2*2)) (fun _ _ _ => 2)
     (fun _ _ v => v*v) (fun _ _ v => 2*v) 1 hy hs (by simp [sumTo])
   simpa using h
+
+/-- the hypotheses of `ffTrue_is_total_derivative_of_sens_rhs` are satisfiable with every group of terms non-zero:
+one state, one parameter, `f(x, θ) = θ²·x²` along `x(θ) = θ` (so `S = 1`, `X = 0`) at `θ = 1`:
+`J(θ) = 2θ²·x(θ) = 2θ³`, `G(θ) = 2θ·x(θ)² = 2θ³`, `∂²f/∂x² = 2`, `∂²f/∂x∂θ = 4`, `∂²f/∂θ² = 2`;
+the derivative of `J·S + G = 2θ³·1 + 2θ³` at `1` is `12 = 2·0 + 2 + 4 + 4 + 2`. -/
+example : HasDerivAt (fun v : ℝ => sumTo 1 (fun l => (2*(v*v*v)) * (1:ℝ)) + 2*(v*v*v))
+    (ffTrue 1 1 (fun _ _ => (2:ℝ)) (fun _ _ => 2) (fun _ _ => 4) (fun _ _ => 2) (fun _ _ => 0) (fun _ _ => 1) 0 0 0) 1 := by
+  have hp : HasDerivAt (fun v : ℝ => 2*(v*v*v)) 6 1 := by
+    have := ((((hasDerivAt_id (1:ℝ)).mul (hasDerivAt_id (1:ℝ))).mul (hasDerivAt_id (1:ℝ)))).const_mul (2:ℝ)
+    refine this.congr_deriv ?_; simp; norm_num
+  have h := ffTrue_is_total_derivative_of_sens_rhs 1 1 (fun _ _ => (2:ℝ)) (fun _ _ => 2) (fun _ _ => 4) (fun _ _ => 2)
+    (fun _ _ => 0) (fun _ _ => 1) (fun v _ _ => 2*(v*v*v)) (fun v _ _ => 2*(v*v*v)) (fun _ _ _ => 1) 1 0 0 0
+    (by intro l; norm_num) (by intro l; rfl)
+    (by intro l _; exact hasDerivAt_const (1:ℝ) (1:ℝ))
+    (by intro l _; refine hp.congr_deriv ?_; simp [sumTo]; norm_num)
+    (by refine hp.congr_deriv ?_; simp [sumTo]; norm_num)
+    (by intro k l; rfl)
+  exact h
 
 end C20
 end Pygom
